@@ -469,4 +469,121 @@ func c08Deep(c *work.Ctx) {
 	}
 }
 
+// ---- deep acyclic values that are not trees -----------------------------------------------------------
+//
+// Beyond 1000 nested frames the encoder starts looking for cycles by remembering addresses. A DAG (a sub-value
+// reached twice), nil and non-nil interface members, and an interface member that shares its address with the
+// struct it opens are acyclic and must encode like in encoding/json at every depth.
+
+type c08DagN struct {
+	L, R *c08DagN
+	V    interface{}
+}
+type c08DagP struct {
+	V    interface{} // first member: its address is the struct's address
+	Next *c08DagP
+}
+type c08DagLeaf struct{ V interface{} }
+type c08DagQ struct {
+	Next *c08DagQ
+	A, B *c08DagLeaf
+}
+
+func init() {
+	work.Register("C08", "c08.dag", c08Dag)
+}
+
+func c08Dag(c *work.Ctx) {
+	depths := []int{10, 999, 1000, 1001, 1002, 1100, 2000}
+	type shape struct {
+		name string
+		mk   func(d int) interface{}
+	}
+	shapes := []shape{
+		{"chain of N{L,R,V}, the last L and R share a node, V nil", func(d int) interface{} {
+			leaf := &c08DagN{}
+			n := &c08DagN{L: leaf, R: leaf}
+			for i := 0; i < d; i++ {
+				n = &c08DagN{L: n}
+			}
+			return n
+		}},
+		{"chain of N{L,R,V}, the last L and R share a node, V non-nil", func(d int) interface{} {
+			leaf := &c08DagN{V: 1}
+			n := &c08DagN{L: leaf, R: leaf, V: "x"}
+			for i := 0; i < d; i++ {
+				n = &c08DagN{L: n, V: i}
+			}
+			return n
+		}},
+		{"list of P{V interface{}; Next}, V non-nil", func(d int) interface{} {
+			var n *c08DagP
+			for i := 0; i < d; i++ {
+				n = &c08DagP{V: i, Next: n}
+			}
+			return n
+		}},
+		{"list of P{V interface{}; Next}, V nil", func(d int) interface{} {
+			var n *c08DagP
+			for i := 0; i < d; i++ {
+				n = &c08DagP{Next: n}
+			}
+			return n
+		}},
+		{"chain of Q{Next,A,B}, the last A and B share a leaf with a nil interface", func(d int) interface{} {
+			leaf := &c08DagLeaf{}
+			n := &c08DagQ{A: leaf, B: leaf}
+			for i := 0; i < d; i++ {
+				n = &c08DagQ{Next: n}
+			}
+			return n
+		}},
+		{"[]interface{} nested, every level holds the same nil-interface leaf twice", func(d int) interface{} {
+			leaf := &c08DagLeaf{}
+			var v interface{} = []interface{}{leaf, leaf}
+			for i := 0; i < d; i++ {
+				v = []interface{}{v, leaf}
+			}
+			return v
+		}},
+	}
+	for _, sh := range shapes {
+		for _, d := range depths {
+			id := fmt.Sprintf("%s, %d deep", sh.name, d)
+			if !c.BeginS(id) {
+				continue
+			}
+			x := sh.mk(d)
+			for k := range c08Entries[:2] {
+				e := &c08Entries[k]
+				// twice: the second call meets whatever the first one left in the pooled context
+				for round := 0; round < 2; round++ {
+					got := runEnc(e.run, x)
+					want := runEnc(c01Configs[k].std, x)
+					what := ""
+					switch {
+					case got.panicked:
+						what = "panic:" + util.ErrClass(got.pmsg)
+					case !want.panicked && (want.err == nil) != (got.err == nil):
+						what = fmt.Sprintf("error-mismatch with encoding/json (go-json err=%v, encoding/json err=%v)", got.err, want.err)
+					case !want.panicked && want.err == nil && k == 0 && oracle.TokensEqual(got.out, want.out) != "":
+						what = "output differs from encoding/json"
+					}
+					c.Outcome(what)
+					if what != "" {
+						dd := "depth <= 1000"
+						if d > 1000 {
+							dd = "depth > 1000"
+						}
+						c.Violation(fmt.Sprintf("deep acyclic value : %s : %s : %s : %s", sh.name, dd, e.name, strings.SplitN(what, " (", 2)[0]), id, what)
+						break
+					}
+				}
+			}
+			c.Sample(id)
+			c.EndCase()
+		}
+	}
+}
+
 func oracleTokens(a, b []byte) string { return oracle.TokensEqual(a, b) }
